@@ -337,6 +337,24 @@ def replay_state(state):
             obs["upd_calls"] = [_obs_call(el2, v, skip=drive.default_ids(el2)) for v in pyvals]
         except Exception as exc:  # noqa
             obs["upd_err"] = type(exc).__name__ + ": " + str(exc)[:120]
+    # the element used (all the calls above), then `additionalProperties` reassigned: later results
+    # answer to the document with that keyword replaced (seed documents only: every accepted value
+    # is adjudicated, there is no prediction for the changed document)
+    if state.get("src") == "seed" and isinstance(sj, dict) and ("properties" in sj or sj.get("type") == "object") \
+            and not any(k in sj for k in ("anyOf", "oneOf", "allOf", "not")) and not isinstance(sj.get("type"), list) \
+            and sj.get("type", "object") == "object" and hasattr(el, "additionalProperties") \
+            and set(sj.get("required", [])) <= set(sj.get("properties", {})):     # (undeclared required names get their element at parse time)
+        try:
+            from statham.schema.parser import parse_element
+            saved = el.additionalProperties
+            el.additionalProperties = parse_element({"type": "number"})
+            try:
+                obs["reconf_doc"] = dict(sj, additionalProperties={"type": "number"})
+                obs["reconf_calls"] = [_obs_call(el, v, probe=False) for v in pyvals]
+            finally:
+                el.additionalProperties = saved
+        except Exception as exc:  # noqa
+            obs["reconf_err"] = type(exc).__name__ + ": " + str(exc)[:120]
     # the same (labelled) document dictionary parsed a second time, as happens to a sub-document
     # that several references share: the second parse must describe the same schema
     if state.get("dobs") or (isinstance(sj, dict) and "default" in json.dumps(sj)):
